@@ -4,6 +4,7 @@ import Pycoin.Proofs.VMGetOp
 import Pycoin.Proofs.VMStepFlow
 import Pycoin.Proofs.VMStepPick
 import Mathlib.Tactic.IntervalCases
+import Pycoin.Proofs.VMEval
 /-!
 C03M — the Lean model of pycoin's script VM (`Pycoin.VM`, tied to the code by `harness/props/c03m.py`) against the
 consensus specification `Pycoin.Spec.Consensus` (Bitcoin Core's interpreter, sibling builder).
@@ -250,5 +251,47 @@ theorem C03M_outside_conditional : ∀ op, op < 256 →
   decide +kernel
 
 end
+
+/-! ## one whole instruction, and the whole script -/
+
+section
+variable (chk : Bytes → Bytes → Bytes → Bool → Bool) (cfg : Config)
+
+/-- C03.step_eq at the level of `VM.eval_instruction`: for **every** Core state `st`, every position `pc` inside the
+script and every opcode outside the CHECKSIG family, one `eval_instruction` on the pycoin state representing `st`
+(decode through the generated decoder table, push-size limit, op count incl. OP_RESERVED un-counting itself, dispatch
+through the generated `INSTRUCTION_LOOKUP`, `outside_conditional`, op-count and stack-size limits) and one iteration of
+Core's `EvalScript` loop (`GetScriptOp` + `stepM`) both fail or both succeed with corresponding states.
+Extra hypotheses (hence `_partial`): the opcode is not CHECKSIG(VERIFY)/CHECKMULTISIG(VERIFY) (the model of those is
+tied to the code by correspondence only), and MINIMALIF is only given to witness VMs (`check_solution` strips it
+otherwise).  An undecodable instruction is an error on both sides. -/
+theorem C03M_step_eq_partial (st : Consensus.State) (pc : Nat) (hpc : pc < cfg.script.length)
+    (hw : hasFlag cfg.flags Gen.VM.VERIFY_MINIMALIF = true → cfg.witness = true) :
+    match getScriptOp (cfg.script.drop pc) with
+    | none => (evalInstruction (stdEnv chk) cfg (absS st pc)).toOption = none
+    | some (op, data, _, size) =>
+      ¬ (0xac ≤ op ∧ op ≤ 0xaf) →
+        Agree (pc + size) (evalInstruction (stdEnv chk) cfg (absS st pc)) (specStep chk cfg st op data (pc + size)) :=
+  instr_eq chk cfg st pc hpc hw
+
+/-- C03.eval_eq: `VM(script, …, initial_stack).eval_script()` and Core's `EvalScript` give the same verdict and, on
+success, the same final stack — script-size limit, op-count, stack-size, conditional balance at the end included;
+by induction on the loop (`pc` strictly increases).  For all scripts of any length whose instructions are outside the
+CHECKSIG family (`noSigOps`), all initial stacks, flags, transaction contexts and both signature versions. -/
+theorem C03M_eval_eq_partial (hw : hasFlag cfg.flags Gen.VM.VERIFY_MINIMALIF = true → cfg.witness = true)
+    (hns : noSigOps cfg.script.length cfg.script = true) (stack : List Bytes) :
+    (evalScript (stdEnv chk) cfg stack).toOption.map (·.stack) =
+      (Consensus.evalScript (specChk chk) stack cfg.script (Flags.ofBits cfg.flags)
+        ⟨cfg.ctx.version, cfg.ctx.lockTime, cfg.ctx.sequence⟩ (if cfg.witness then .witnessV0 else .base)).toOption :=
+  evalScript_eq chk cfg hw hns stack
+
+end
+
+-- the hypotheses are satisfiable, and the conclusion is about non-trivial runs
+example : noSigOps 9 [0x51, 0x63, 0x52, 0x53, 0x93, 0x67, 0x00, 0x68, 0x76] = true := by decide
+#guard ((evalScript (stdEnv fun _ _ _ _ => false) ⟨[0x51, 0x63, 0x52, 0x53, 0x93, 0x67, 0x00, 0x68, 0x76], ⟨0, 0, 1⟩, 0, false⟩ []).toOption.map
+  (·.stack)) = some [[5], [5]]
+#guard (Consensus.evalScript (fun _ _ _ _ => false) [] [0x51, 0x63, 0x52, 0x53, 0x93, 0x67, 0x00, 0x68, 0x76] (Flags.ofBits 0) ⟨1, 0, 0⟩
+  .base).toOption = some [[5], [5]]
 
 end Pycoin.VM
